@@ -1,7 +1,8 @@
 """C09 implementation side: run tensora's constructors / read-back on a batch of cases.
 
 stdin : JSON {"cases": [case, ...]}
-stdout: JSON {"results": [result, ...]}   (same order)
+stdout: one JSON result per line, same order, flushed after every case (so that the parent knows
+        which case killed the interpreter when a cffi read segfaults)
 
 case = {"modes": [0|1,...], "ord": [...], "dims": [...], "ep": "aos"|"dok"|"soa"|"lol",
         "coords": [[...],...], "vals": [...]   (aos; dok uses them as insertion-ordered items),
@@ -23,7 +24,7 @@ def num(v):
     v = float(v)
     if v != v or v in (float("inf"), float("-inf")):
         return repr(v)
-    return int(v) if v.is_integer() else v.hex()
+    return int(v) if (v.is_integer() and abs(v) < 2.0**53) else v.hex()
 
 
 def main():
@@ -78,7 +79,12 @@ def main():
         return [[list(k), num(v)] for k, v in d.items()]
 
     job = json.load(sys.stdin)
-    out = []
+    class Out:
+        @staticmethod
+        def append(r):
+            sys.stdout.write(json.dumps(r) + "\n")
+            sys.stdout.flush()
+    out = Out()
     for c in job["cases"]:
         r = {}
         t, e = attempt(lambda c=c: construct(c))
@@ -116,7 +122,6 @@ def main():
                 ta, ea = attempt(lambda a=a: construct(a))
                 r["alt"] = ea if ea is not None else {"eq": bool(t == ta), "ne": bool(t != ta)}
         out.append(r)
-    json.dump({"results": out}, sys.stdout)
 
 
 if __name__ == "__main__":
